@@ -256,7 +256,14 @@ impl Check for C05 {
         let mut plan = if r.coin() { IoPlan::random(&mut r) } else { IoPlan::benign_none() };
         plan.fail_at = read_fault;
         let mut rd = SimRead::new(basis.clone(), plan);
-        let mut wr = SimWrite::new(IoPlan::benign_none());
+        // the output sink: mostly well-behaved; sometimes it takes the bytes in pieces (short
+        // writes, Interrupted, Pending), sometimes it fails for good at some byte (disk full)
+        let mut wplan = if r.below(3) == 0 { IoPlan::random(&mut r) } else { IoPlan::benign_none() };
+        if r.below(4) == 0 {
+            wplan.fail_at = Some(r.below(source.len() as u64 + 2));
+            rep.fault("output_sink_error", 1);
+        }
+        let mut wr = SimWrite::new(wplan);
         copia_simworld::alloc::arm();
         let res = catch_quiet(|| {
             if sc.engine == 0 {
@@ -271,6 +278,7 @@ impl Check for C05 {
         }
         let eng = if sc.engine == 0 { "sync" } else { "async" };
         match res {
+            Err(p) if p.contains("SIM-HANG") => rep.fail("c05.no_hang", "patch-does-not-terminate", format!("{eng} engine, fault {name}: {p}")),
             Err(p) => rep.fail("c05.no_crash", "patch-panicked", format!("{eng} engine, fault {name}: {p}")),
             Ok(Ok(())) => {
                 rep.probe("patch_reported_success", 1);
@@ -324,6 +332,12 @@ impl C05 {
         w.host("local").put_file("/w/basis", basis, t);
         w.host("local").put_file("/w/d.delta", &file, t);
         w.host("local").mkdir_p("/home/u", t);
+        // a third of the CLI runs: the output path already holds (longer) bytes from an earlier run
+        if r.below(3) == 0 {
+            let n = delta.source_size as usize % 200_000 + 1 + r.usize_below(5000);
+            w.host("local").put_file("/w/out", &r.bytes(n), t);
+            rep.probe("output_path_preexisting", 1);
+        }
         let mut cfg = RunCfg::default();
         cfg.seed = sc.seed;
         cfg.short_read_pct = *r.pick(&[0u32, 30]);
